@@ -99,7 +99,7 @@ LEVEL = {
                     'layout validation accepts, every instant of the clock domain and all generated lists that are complete, the file generate leaves behind, read back archive by archive over the '
                     'whole retention, is exactly those lists (no empty slot, nothing left from propagation), under the requested header; what gen_ok accepts is bounded and sum-consistent. '
                     'gen_ok (Model/Generate.v, extracted) is evaluated on the lists of every real run: the command at the wall clock and the generator + per-archive write at explicit instants '
-                    '(aligned or not, last finer slot of a coarser interval, before and after 2^31) through the verif hook. A bound of the random values that cannot be used (negative, or not below 2^31) is an error before the file is created (C20_unusable_bound_is_an_error; finding F14).',
+                    '(aligned or not, last finer slot of a coarser interval, before and after 2^31) through the verif hook. A bound of the random values that cannot be used (negative, or not below 2^31) is an error before the file is created (C20_unusable_bound_is_an_error; finding F14). The file is created where the operating system finds the name given as -dest (phys_elems, Model/Path.v: directory links first, then ..; equal to the cleaned text when no link is on the way - C20_destination_without_links_is_the_cleaned_name, C20_destination_through_a_link; scenario c20-linkdest).',
             'design_ref': '5 C20',
             'note': _TB + 'math/rand is an oracle (its choices are inputs of the model); hook cmd/verif_hooks.go exposes randomPointsList / updateFileDataWithPointsList with explicit seed and clock.'},
     'C06': {'text': 'Theorems: file length = header + 12 per slot; big-endian header in the classic field order with archives contiguous; offsets of a validated header are the running sums; '
